@@ -98,7 +98,8 @@ class Gen:
     def __init__(self, tape, *, syntax: Syntax = DEFAULT_SYNTAX, is_async: bool = False,
                  probe: bool = False, allow_module_state: bool = False, loopcontrols: bool = False,
                  max_depth: int = 3, size: int = 6, compile_bias: bool = False,
-                 env_globals: bool = False, template_globals: bool = False, stream: str = "w") -> None:
+                 env_globals: bool = False, template_globals: bool = False, stream: str = "w",
+                 native: bool = False) -> None:
         self.tape = tape
         self.sx = syntax
         self.is_async = is_async
@@ -111,6 +112,7 @@ class Gen:
         self.env_globals = env_globals  # environment globals gn (int) and gf (callable; awaitable in async mode)
         self.template_globals = template_globals  # template-level global tg passed to get_template(globals=...)
         self.stream = stream
+        self.native = native  # NativeEnvironment: block-set literals become containers the template may mutate
         self.prog = Program()
         self.uid = 0
         self.have_mod = False
@@ -181,7 +183,10 @@ class Gen:
         return f"range({self.c_int(sc, depth + 1)} % 4)|list|length"
 
     def c_str(self, sc: Scope, depth: int) -> str:
-        k = self.d(5 if depth < 2 else 2)
+        k = self.d(6 if depth < 2 else 2)
+        if k == 5:
+            # join looks at the eval context of the context it runs in (module context inside an imported macro)
+            return f"[{self.c_str(sc, depth + 1)}, {self.c_str(sc, depth + 1)}]|join"
         if k == 0:
             return self.pick(sc.strs) if sc.strs else "'q'"
         if k == 1:
@@ -248,6 +253,9 @@ class Gen:
             return self.c_str(sc, depth)
         if self.probe and self.chance(1, 5):
             return self.pick(self.PROBE_STR)
+        if not self.probe and self.chance(1, 16):
+            self.prog.feat("str_object")
+            return self.pick(["so1|string", "(so1 ~ '')", "so1"])
         opts = 14 if depth < 2 else 3
         k = self.d(opts + (2 if self.is_async else 0))
         if k == 0:
@@ -370,7 +378,13 @@ class Gen:
             return f"not {self.c_int(sc, depth + 1)}"
         if self.probe and self.chance(1, 4):
             return self.pick(self.PROBE_BOOL)
-        k = self.d(10 if depth < 2 else 4)
+        k = self.d(11 if depth < 2 else 4)
+        if k == 10:
+            self.prog.feat("in_literal_sequence")
+            if self.chance(1, 2):
+                op_, cl_ = self.pick([("[", "]"), ("(", ")")])
+                return f"{self.e_str(sc, depth + 1)} {self.pick(['in', 'not in'])} {op_}'html', 'htm', 'a', 'xml', '<x>', 'b'{cl_}"
+            return f"{self.e_int(sc, depth + 1)} in [1, 2, 3, 5, 8, 'x', 'y']"
         if k == 0:
             return f"{self.e_int(sc, depth + 1)} {self.pick(['>', '<', '==', '!=', '>=', '<='])} {self.e_int(sc, depth + 1)}"
         if k == 1:
@@ -517,6 +531,8 @@ class Gen:
             0 if deep else 1,  # 18 raw
             0 if deep or not any(m[2] for m in sc.macros) else 2,  # 19 call block
             0 if deep else 1,  # 20 autoescape block
+            0 if sc.closed or self.probe else 1,  # 21 namespace initialised from a dict of the data
+            3 if self.native else 0,  # 22 (native environments) container literal from a block set, mutated by the template
         ]
         k = self.tape.weighted(weights, self.stream)
         P = self.prog
@@ -638,6 +654,22 @@ class Gen:
         if k == 20:
             P.feat("autoescape_block")
             return self.tag(f"autoescape {self.pick(['false', 'true'])}") + self.body(Scope(sc), depth + 1) + self.tag("endautoescape")
+        if k == 21:
+            P.feat("namespace_from_data_dict")
+            ns = self.fresh("ns")
+            src_ = self.pick(["d1", "d1", "ld[0]", "gd" if self.env_globals else "d1"])
+            key = {"d1": "k1", "ld[0]": "k", "gd": "k1"}[src_]
+            s = self.tag(f"set {ns} = namespace({src_})")
+            s += self.tag(f"set {ns}.{key} = {ns}.{key}|default(0) + 1") + self.tag(f"set {ns}.extra = {self.e_int(sc, 1)}")
+            return s + self.var(f"{ns}.{key} ~ '/' ~ {ns}.extra")
+        if k == 22:
+            P.feat("native_container_mutation")
+            v = self.fresh("nc")
+            if self.chance(1, 2):
+                return (self.tag(f"set {v}") + "[1, 2]" + self.tag("endset")
+                        + self.var(f"({v}.append(3) or {v}) if {v} is not string else {v}"))
+            return (self.tag(f"set {v}") + "{'a': 1}" + self.tag("endset")
+                    + self.var(f"({v}.update(b=2) or {v}|dictsort|string) if {v} is mapping else {v}"))
         if k == 19:
             P.feat("call_block")
             name, nargs, _c = self.pick([m for m in sc.macros if m[2]])
@@ -658,6 +690,8 @@ class Gen:
         inner = Scope(sc)
         inner.in_loop = True
         kind = 0 if sc.closed else self.d(6 if not self.is_async else 8)
+        if not sc.closed and not self.probe and self.chance(1, 10):
+            kind = 8
         v = self.fresh("x")
         cond_var = v
         if kind in (0, 1):
@@ -696,6 +730,11 @@ class Gen:
             s += self.tag(f"set {kk} = {v}.v") + self.body(inner, depth + 1, 1)
             s += self.tag(f"if {v}.c") + "(" + self.var(f"loop({v}.c)") + ")" + self.tag("endif")
             return s + self.tag("endfor")
+        elif kind == 8:
+            # a fresh generator OBJECT per evaluation (a plain iterator, not a sequence; closable)
+            it = "sg1()"
+            inner.ints.append(v)
+            P.feat("for_sync_generator_object")
         elif kind == 6:
             it = "ai1"
             inner.ints.append(v)
@@ -1004,7 +1043,32 @@ def make_data_seed(seed: int) -> dict:
     return make_data_rng(random.Random(seed))
 
 
+class StrObj:
+    """An object whose only interesting behaviour is its string conversion."""
+
+    def __init__(self, text: str) -> None:
+        self.text = text
+
+    def __str__(self) -> str:
+        return self.text
+
+    def __repr__(self) -> str:
+        return "EvStr()"
+
+
 def make_data_rng(rng) -> dict:
+    d = _make_data_rng(rng)
+    l1 = d["l1"]
+
+    def sg1():
+        yield from l1
+
+    d["sg1"] = sg1
+    d["so1"] = StrObj(d["s2"] + "!")
+    return d
+
+
+def _make_data_rng(rng) -> dict:
     strs = ["a", "b", "<x>", "a&b", "é", "Hello World", "", "  pad "]
     n = 1 + rng.randrange(4)
     return {
